@@ -30,6 +30,11 @@ def run(ctx):
     s3, _, _ = pscommon.run_mbt(ctx, "MC_PSProg", cd, "psdictlit", base_heap="FreshHeap", invariants=("Emit", "Inv"))
     pscommon.absorb(ctx, s3, "vh replay-ps (MC_PSProg dictlit)", "PSOps!DataOp >> (pairs in stack order)")
     ctx.extra["dictionary_literals"] = s3["vectors"]
+    # creating operators create: make, change, make again (nothing is handed out twice)
+    cf = dict(cd, Family='"fresh"')
+    s4, _, _ = pscommon.run_mbt(ctx, "MC_PSProg", cf, "psfresh", base_heap="FreshHeap", invariants=("Emit", "Inv"))
+    pscommon.absorb(ctx, s4, "vh replay-ps (MC_PSProg fresh)", "PSOps!DataOp: matrix / array / string / dict / ] / >> allocate")
+    ctx.extra["fresh_object_programs"] = s4["vectors"]
     # longer programs: seeded random walks in which the environment feeds tokens that the
     # specification says are in the operators' domains (MC_PSProg family feed)
     n = 1500 if ctx.tier == "quick" else 20000  # measured: 25 programs per second, one worker
